@@ -30,7 +30,7 @@ def oracle(spec, ops):
     submissions yields the same final contents."""
     trace, mops, archive, table = au.run_impl(spec, ops)
     routed = {}
-    dtype = au.DT[spec["dtype"]]
+    dtype = au.odt(spec)
     for step, (op, ent) in enumerate(zip(ops, trace)):
         if "error" in ent.get("ret", {}):
             return "step %d: valid %s raised %s" % (step, op[0], ent["ret"]["msg"])
@@ -163,7 +163,11 @@ def check(rep, tier, seed, driver):
     rep.count("corpus_cases", len(cases))
     for _ in range(n):
         spec = au.gen_spec(rng, max_cells=64 if tier == "quick" else 4096)
-        dtype = au.DT[spec["dtype"]]
+        if spec["kind"] != "sliding" and rng.random() < 0.15:
+            # the dict form of `dtype`: the objective (and the threshold that goes with it) in the other float type than solution / measures
+            spec["odtype"] = "d" if spec["dtype"] == "f" else "f"
+            rep.count("dict_dtype_cases")
+        dtype = au.odt(spec)
         ops = au.gen_history(rng, spec, rng.randint(2, 16 if tier == "quick" else 60), 12, lambda r: au.wild_float(r, dtype))
         cases.append({"spec": spec, "ops": ops})
     au.run_cases(rep, "C01", cases,
